@@ -499,6 +499,46 @@ func Monitors(h History, tr *Trace) []Failure {
 			}
 		}
 
+		// ---- C15: an accepted application satisfies x/staking's own rules (state-dependent ones: chain minimum
+		//      commission, unused operator and consensus key; the stateless ones are compared at L2) ----
+		{
+			curMin := big.NewInt(0)
+			if pf := strings.Fields(prev.Params); len(pf) == 6 {
+				curMin = bigOf(pf[5])
+			}
+			for i, t := range bt.Spec.Txs {
+				if i >= len(bt.TxOut) || bt.TxOut[i] != "pass" {
+					continue
+				}
+				for _, m := range t.Msgs {
+					if m.Kind == "params" && m.Params != nil && m.Params.MinComm != nil {
+						curMin = m.Params.MinComm // in force for the messages that follow in this block
+					}
+					if m.Kind != "create" {
+						continue
+					}
+					if m.Rate != nil && m.Rate.Cmp(curMin) < 0 {
+						add("C15", "C15/accepted-application-below-chain-minimum-commission", ht, "rate %s, minimum %s", m.Rate, curMin)
+					}
+					if _, isVal := prev.Vals[m.Val]; isVal {
+						add("C15", "C15/accepted-application-of-existing-operator", ht, "operator %d", m.Val)
+					}
+					for id, v := range prev.Vals {
+						if v.Cons == m.Cons {
+							add("C15", "C15/accepted-application-with-used-consensus-key", ht, "key %d of validator %d", m.Cons, id)
+						}
+					}
+					if m.Rate != nil && m.MaxRate != nil && m.MaxChg != nil &&
+						(m.Rate.Sign() < 0 || m.Rate.Cmp(m.MaxRate) > 0 || m.MaxRate.Cmp(ten18) > 0 || m.MaxChg.Sign() < 0 || m.MaxChg.Cmp(m.MaxRate) > 0) {
+						add("C15", "C15/accepted-application-with-invalid-commission", ht, "%s %s %s", m.Rate, m.MaxRate, m.MaxChg)
+					}
+					if m.Moniker == 0 || m.Moniker > 70 || m.Cons < 0 {
+						add("C15", "C15/accepted-application-with-invalid-description-or-key", ht, "moniker %d key %d", m.Moniker, m.Cons)
+					}
+				}
+			}
+		}
+
 		// ---- C10: pending list refines the spec ----
 		for _, op := range ops {
 			switch op.Kind {
